@@ -176,6 +176,10 @@ Apply(k, vec, i) == IF i > Len(trains) THEN vec
                     ELSE LET t == trains[i] IN
                          Apply(k, IF t.key = k THEN [r \in Rows |-> IF r \in Written(t) THEN t.val ELSE vec[r]] ELSE vec, i + 1)
 Eff(k) == Apply(k, col[k], 1)                       \* EffParam / EffState
+\* C05: the simulated value of row r IS the value of group G of trainable i exactly on these rows, so the
+\* gradient with respect to that shared value is the SUM of the per-row gradients over DEff(i, G) and nothing
+\* else (the scatter of trainables, transposed); padding never denotes a row
+DEff(i, G) == {r \in G : \A j \in (i + 1)..Len(trains) : trains[j].key # trains[i].key \/ r \notin Written(trains[j])}
 
 \* write_trainables(get_parameters()): the tables now store exactly the values that are simulated
 WriteTrainables ==
